@@ -670,4 +670,127 @@ theorem dII_bchange_sound (inf : Rat) (lvUpper : Bool) (cols : List DCol)
       · rfl
       · rename_i hz; exfalso; apply huu; simp only [hz]; rfl
 
+/-! ### the leaving row has the largest pivot among the candidates -/
+
+
+/-- pass 2 keeps the largest pivot seen so far among the qualifying rows -/
+theorem pass2_max (leq : Rat → Rat → Bool) (p : Par) (tmax : Rat) (kmin : Int) (rs : List Row) :
+    ∀ (k : Nat) (s : Sel),
+      s.ayi ≤ (pass2 leq p tmax kmin rs k s).ayi ∧
+      ∀ (j : Nat) (r : Row), rs[j]? = some r → relevant p r = true →
+        (((k + j : Nat) : Int) == kmin || leq (ratio2 p r) tmax) = true →
+        absR r.y ≤ (pass2 leq p tmax kmin rs k s).ayi := by
+  induction rs with
+  | nil => intro k s; exact ⟨le_refl _, fun j r h => by simp at h⟩
+  | cons r0 rs ih =>
+    intro k s
+    unfold pass2
+    dsimp only
+    by_cases hr : relevant p r0 = true
+    · by_cases hc : (((k : Int) == kmin || leq (ratio2 p r0) tmax) && decide (s.ayi < absR r0.y)) = true
+      · simp only [hr, Bool.not_true, Bool.false_eq_true, if_false, hc, if_true]
+        obtain ⟨h1, h2⟩ := ih (k + 1) { indx := k, tz := ratio2 p r0, yi := r0.y, ayi := absR r0.y }
+        have hlt : s.ayi < absR r0.y := by
+          simp only [Bool.and_eq_true, decide_eq_true_eq] at hc; exact hc.2
+        refine ⟨le_trans (le_of_lt hlt) h1, ?_⟩
+        intro j r hj hrel hq
+        cases j with
+        | zero =>
+          simp at hj; subst hj
+          exact h1
+        | succ j' =>
+          have hj' : rs[j']? = some r := by simpa using hj
+          have e : ((k + 1 + j' : Nat) : Int) = ((k + (j' + 1) : Nat) : Int) := by push_cast; ring
+          exact h2 j' r hj' hrel (by rw [e]; exact hq)
+      · simp only [hr, Bool.not_true, Bool.false_eq_true, if_false, hc]
+        obtain ⟨h1, h2⟩ := ih (k + 1) s
+        refine ⟨h1, ?_⟩
+        intro j r hj hrel hq
+        cases j with
+        | zero =>
+          simp at hj; subst hj
+          -- the row qualifies but was not taken: its pivot is not larger than the current one
+          have hq' : (((k : Int) == kmin || leq (ratio2 p r0) tmax)) = true := by simpa using hq
+          have : ¬ s.ayi < absR r0.y := by
+            intro hlt
+            apply hc
+            simp only [Bool.and_eq_true, decide_eq_true_eq]
+            exact ⟨by simpa using hq', hlt⟩
+          exact le_trans (not_lt.mp this) h1
+        | succ j' =>
+          have hj' : rs[j']? = some r := by simpa using hj
+          have e : ((k + 1 + j' : Nat) : Int) = ((k + (j' + 1) : Nat) : Int) := by push_cast; ring
+          exact h2 j' r hj' hrel (by rw [e]; exact hq)
+    · have hr' : (!relevant p r0) = true := by simpa using hr
+      simp only [hr', if_true]
+      obtain ⟨h1, h2⟩ := ih (k + 1) s
+      refine ⟨h1, ?_⟩
+      intro j r hj hrel hq
+      cases j with
+      | zero => simp at hj; subst hj; exact absurd hrel hr
+      | succ j' =>
+        have hj' : rs[j']? = some r := by simpa using hj
+        have e : ((k + 1 + j' : Nat) : Int) = ((k + (j' + 1) : Nat) : Int) := by push_cast; ring
+        exact h2 j' r hj' hrel (by rw [e]; exact hq)
+
+theorem absR_neg (q : Rat) : absR (-q) = absR q := by
+  unfold absR
+  by_cases h : q < 0
+  · have : ¬ (-q < 0) := by linarith
+    rw [if_pos h, if_neg this]
+  · by_cases h0 : q = 0
+    · subst h0; simp
+    · have hpos : 0 < q := lt_of_le_of_ne (not_lt.mp h) (Ne.symm h0)
+      have : -q < 0 := by linarith
+      rw [if_neg h, if_pos this]; ring
+
+/-- among the rows that reach their bound no later than the chosen step, the leaving row has the
+largest pivot element (the numerically safest choice the two-pass rule is meant to make) -/
+theorem pII_bchange_largest_pivot (p : Par) (rows : List Row) (hpv : p.pivtol = 0) (hpf : p.pftol = 0)
+    (hfeas : ∀ r ∈ rows, inBounds p 0 r r.x) (h : (pII p rows).stat = .bchange) :
+    ∀ (j : Nat) (r : Row), rows[j]? = some r → r.y ≠ 0 → ratio2 p r ≤ absR (pII p rows).tz →
+      absR r.y ≤ absR (pII p rows).pivot := by
+  unfold pII pIIWith at h ⊢
+  generalize hout : pass1 p rows 0 (p.inf, -1) = out at h ⊢
+  obtain ⟨tmax, kmin⟩ := out
+  dsimp only at h ⊢
+  split at h
+  · simp [noRow] at h
+  rename_i hnb
+  rw [if_neg hnb]
+  split at h
+  · simp [noRow] at h
+  rename_i hub
+  rw [if_neg hub]
+  have hlt : tmax < p.inf := not_le.mp hub
+  have hmax := pass2_max (fun a b => decide (a ≤ b)) p tmax kmin rows 0 {}
+  generalize hs : pass2 (fun a b => decide (a ≤ b)) p tmax kmin rows 0 {} = s at h hmax ⊢
+  split at h
+  · simp [noRow] at h
+  rename_i hidx
+  rw [if_neg hidx]
+  obtain ⟨j0, c, hj0, hi, htz, hyi, hayi, hy0, ht0, hstep, hcase⟩ :=
+    select_exact p rows hpv hpf hfeas tmax kmin hout hlt s hs hidx
+  have htz0 : ¬ s.tz < 0 := by rw [htz]; exact not_lt.mpr ht0
+  rw [if_neg htz0]
+  dsimp only
+  intro j r hj hy hle
+  have habs_tz : absR (if p.incr = true then s.tz else -s.tz) = tmax := by
+    split
+    · rw [htz]; unfold absR; rw [if_neg (not_lt.mpr ht0)]
+    · rw [absR_neg, htz]; unfold absR; rw [if_neg (not_lt.mpr ht0)]
+  rw [habs_tz] at hle
+  have hrel : relevant p r = true := by
+    unfold relevant; rw [hpv]
+    apply decide_eq_true
+    unfold absR; split
+    · linarith
+    · rcases lt_or_gt_of_ne hy with h' | h'
+      · linarith
+      · exact h'
+  have := hmax.2 j r hj hrel (by simp [hle])
+  rw [hyi, ← hayi]
+  exact this
+
+
 end Qsx.Ratio
